@@ -5,6 +5,7 @@ import (
 	"go/ast"
 	"go/token"
 	"go/types"
+	"strings"
 
 	"golang.org/x/tools/go/cfg"
 )
@@ -31,6 +32,7 @@ func checkC17(p *Prog, r *Report) {
 	r.rule("C17.H2", "every execute() is dominated by now.After(<that task>.ts), now being read (time.Now() or the timer channel) after the task was received / in the same round; Less orders by ts.Before", 3)
 	r.rule("C17.H3", "after heap.Push the timer is Reset(tasks[0].ts.Sub(now)) before the next select; the timer arm ends only with an empty heap or after such a Reset", 2)
 	r.rule("C17.H4", "the blocking <-timer.C is guarded by !stopped && !drained, stopped := timer.Stop() just before; drained = true opens the timer arm; drained = false follows every Reset", 3)
+	r.rule("C17.H7", "submitting never blocks: every send on the wake-up channel chPrependNotify is non-blocking (= C13.W8) — Put is called from inside running tasks (the session updater re-submits itself), so a Put that waits for the forwarder, which waits for that worker, stops the scheduler for good", 1)
 	r.rule("C17.H6", "the deadline a task is scheduled for is the deadline it was submitted with: the ts of a timedFunc is set once, in Put, from Put's deadline parameter as it is (never reassigned, clamped or rounded), and stored nowhere else", 1)
 	r.rule("C17.H5", "Put appends under prependLock and then always signals (non-blocking send, channel capacity >= 1); the only receive from the signal channel is followed by taking the whole slice under the lock; prepend forwards every element, leaving only on die", 5)
 
@@ -702,6 +704,23 @@ func checkSchedHandOff(p *Prog, r *Report, put, prepend *FuncInfo) {
 			}
 		}
 		r.check(ok, "C17.H5", "NewTimedSched", "-", "capacity of chPrependNotify", ">= 1", "the signal channel is unbuffered: a non-blocking send while the forwarder is busy is dropped, and the tasks appended meanwhile are never forwarded")
+	}
+
+	// ---- H7
+	{
+		sub := newReport("C13", r.Tier)
+		sub.curCfg = r.curCfg
+		checkNotifyNonBlocking(p, sub)
+		for _, o := range sub.Obs {
+			if !strings.Contains(o.Construct, "chPrependNotify") {
+				continue
+			}
+			if o.Status == Discharged {
+				r.ok("C17.H7", o.Func, o.Pos, o.Construct, o.Detail)
+			} else {
+				r.bad("C17.H7", o.Func, o.Pos, o.Construct, o.Detail+": a task that re-submits from inside a worker deadlocks with the forwarder; nothing runs again", o.Witness)
+			}
+		}
 	}
 
 	// ---- H6
